@@ -24,10 +24,19 @@ NA = {
 
 PENDING = {
     "C04": "check under construction in this round (gc-sim, DESIGN.md §4); not claimed until it runs",
-    "C14": "check under construction in this round (proc-sim, DESIGN.md §6); not claimed until it runs",
 }
 
 CHECKS = {
+    "C14": {
+        "engine": "proc-sim",
+        "technique": "deterministic simulation of the diplomat-tool process environment (entropy/clock/pid/heap/cwd/env behind an LD_PRELOAD shim, ASLR off) with seeded edit histories; byte comparison of output trees",
+        "level_claimed": {
+            "category": "exploration",
+            "text": "Every ambient input of a diplomat-tool process (HashMap seeds via getrandom, clocks, pid, hostname, heap layout, cwd, path spelling, environment, stale output directory) is drawn from the trace and injected through seams, so one trace is one exactly repeatable process execution. Seeded histories of edits (no-op, permute modules, permute type declarations, insert/remove an unreferenced type, insert/remove non-bridge items incl. same-named types) are applied to feature_tests, example and the verification bridge; after each edit all 9 backend configurations are regenerated under a fresh ambient draw and compared byte-for-byte with the reference state (D1 identical, D2 identical, D3 other types' files identical and removal restores the tree, D4 identical). Violations are minimised to the needed edits and the responsible ambient dimension. Sampling, not proof.",
+            "design_ref": "DESIGN.md §6",
+        },
+        "level_note": "Trusted: the shim reaches the sources it claims (measured per run: getrandom call count, distinct HashMap listing orders; clock/pid/hostname are simulated but not consulted by the tool on this tree). Aggregate files (index.mjs, index.d.ts, lib.g.dart, <lib>_ext.cpp) are exempt from D3 by name. I/O errors are not simulated.",
+    },
     "C03": {
         "engine": "own-sim",
         "technique": "deterministic simulation of ownership histories across the FFI boundary against a ledger reference model; seeded schedules + fault arms, executed natively, under Miri and (C++ layer) under ASan",
@@ -51,6 +60,7 @@ CHECKS = {
 }
 
 ENGINES = [
+    {"name": "proc-sim", "path": "lib/c14.py + sim/proc/shim.c + sim/rs/permute", "serves_properties": ["C14"], "kind_free_text": "process-environment simulator for diplomat-tool: preload shim, ASLR-off launcher, syn-based edit-history rewriter, tree comparator with minimiser"},
     {"name": "own-sim", "path": "sim/rs/own-sim", "serves_properties": ["C03", "C12"], "kind_free_text": "trace-driven ownership simulator: L1 runtime types, L2 macro-generated extern C API of sim/rs/vbridge (Rust, native + Miri)"},
     {"name": "write-sim", "path": "sim/rs/write-sim", "serves_properties": ["C12"], "kind_free_text": "trace-driven simulator of the DiplomatWrite buffer owner (Rust, native + Miri)"},
 ]
